@@ -24,7 +24,7 @@ type c02Sharer struct {
 // a new GPU-memory request (symbolic MiB, 1 or 2 devices) is placed by the real FittingNode +
 // allocateTaskToNode (gpu_sharing.AllocateFractionalGPUTaskToNode, FittingGPUs, NodeInfo shared-GPU
 // accounting) and committed.
-// BOUND: G in {1,2,3}; device memory T = 1000 MiB (quick) / {1000, 100, 16000} (thorough); 0..2 existing sharers over <= 2 groups with SYMBOLIC memory requests in [1, 2^20); one whole-GPU pod; the new request's memory from the boundary menu {1, 0.3T, T/2, T/2+1, T, T+1, 2T} with 1..2 devices
+// BOUND: G in {1,2,3}; device memory T = 1000 MiB (quick) / {1000, 100, 16000} (thorough); 0..2 existing sharers over <= 2 groups with SYMBOLIC memory requests in [1, 2^20); one whole-GPU pod; the new request's memory from the boundary menu {1, 0.3T, T/2, T/2+1, T, T+1, 2T} with 1..2 devices; the new pod's cpu request regular (100m) or below the best-effort threshold (0)
 // ASSUME: pre-state reachable: per group the occupying sharers fit the device, groups + whole GPUs <= G; the existing sharers' derived fractional portions (dead for this property: only the queue charge uses them) are havoc'ed
 func VerifC02_SharedGpuMemory() {
 	vr.OpaqueNonlinear(true)
@@ -103,7 +103,9 @@ func VerifC02_SharedGpuMemory() {
 	mMenu := []int64{1, T * 3 / 10, T / 2, T/2 + 1, T, T + 1, 2 * T}
 	m := mMenu[vr.Choose("new.mem", len(mMenu))]
 	devices := int64(vr.Choose("devices", 2) + 1)
-	nt := vs.NewTask("new", "job-new", "", 100, 1000, vs.GpuSpec{Kind: 2, MemMiB: m, Devices: devices}, pod_status.Pending, "", vm)
+	// cpu below the scheduler's best-effort threshold (10 milli-cpu) or a regular cpu request
+	newCpu := []float64{100, 0}[vr.Choose("new.cpu", 2)]
+	nt := vs.NewTask("new", "job-new", "", newCpu, 1000, vs.GpuSpec{Kind: 2, MemMiB: m, Devices: devices}, pod_status.Pending, "", vm)
 	nj := vs.NewJob("job-new", "q0", true, 0, 1, vm, nt)
 	jobs[nj.UID] = nj
 	ch := &c01Cache{}
